@@ -119,7 +119,9 @@ Section Base.
   Variable perfile : path -> option content -> list V.
   Variable rep_blocks : list fv -> list fv -> list V.
   Variable rep_consts rep_st : list fv -> list V.
-  Variable hard_excl ignored : path -> bool.
+  Variable hard_excl : path -> bool.
+  Variable ignored : option content -> path -> bool.
+  Variable ign_path : path.
   Variable in_dir : nat -> path -> bool.
 
   Notation lint_file1 := (lint_file1 V perfile hard_excl ignored).
@@ -127,16 +129,18 @@ Section Base.
   Notation finalize := (finalize V rep_blocks rep_consts rep_st).
   Notation run_entry := (run_entry V perfile rep_blocks rep_consts rep_st hard_excl ignored).
   Notation run_single := (run_single V perfile rep_blocks rep_consts rep_st hard_excl ignored).
-  Notation step := (step V perfile rep_blocks rep_consts rep_st hard_excl ignored in_dir).
-  Notation run := (run V perfile rep_blocks rep_consts rep_st hard_excl ignored in_dir).
+  Notation step := (step V perfile rep_blocks rep_consts rep_st hard_excl ignored ign_path in_dir).
+  Notation run := (run V perfile rep_blocks rep_consts rep_st hard_excl ignored ign_path in_dir).
+  Notation mk_init := (mk_init ign_path).
 
-  (* the ignore memo table only ever holds correct answers *)
-  Definition coherent (ic : list (path * bool)) : Prop := forall p b, passoc p ic = Some b -> b = ignored p.
+  (* the ignore memo table only ever holds correct answers for the patterns the parser loaded *)
+  Definition coherent (st : ostate) : Prop := forall p b, passoc p (icache st) = Some b -> b = ignored (ppats st) p.
 
-  Lemma coherent_nil : coherent []. Proof. intros p b H. discriminate H. Qed.
+  Lemma coherent_init pp : coherent (init_st pp). Proof. intros p b H. discriminate H. Qed.
 
-  Lemma cached_ignored_ok ic p : coherent ic ->
-    fst (cached_ignored ignored ic p) = ignored p /\ coherent (snd (cached_ignored ignored ic p)).
+  Lemma cached_ignored_ok pp ic p : (forall p b, passoc p ic = Some b -> b = ignored pp p) ->
+    fst (cached_ignored ignored pp ic p) = ignored pp p
+    /\ (forall p' b, passoc p' (snd (cached_ignored ignored pp ic p)) = Some b -> b = ignored pp p').
   Proof.
     intros C. unfold cached_ignored. destruct (passoc p ic) eqn:E; cbn [fst snd].
     - split; [now apply C|exact C].
@@ -146,99 +150,101 @@ Section Base.
   Qed.
 
   (* a file is looked at by the rules iff no guard of lint_file rejects it *)
-  Definition accepted (p : path) : bool :=
+  Definition accepted (pp : option content) (p : path) : bool :=
     negb (smem "_is_hardcoded_excluded" lint_file_guards && hard_excl p)
-    && negb (smem "is_ignored" lint_file_guards && ignored p).
+    && negb (smem "is_ignored" lint_file_guards && ignored pp p).
 
-  Definition evid1 (fs : fsys) (p : path) : list fv :=
-    if accepted p then match fs_get fs p with Some c => [(p, c)] | None => [] end else [].
-  Definition pf1 (fs : fsys) (p : path) : list V := if accepted p then perfile p (fs_get fs p) else [].
-  Definition evid (fs : fsys) (ps : list path) : list fv := flat_map (evid1 fs) ps.
-  Definition pfout (fs : fsys) (ps : list path) : list V := flat_map (pf1 fs) ps.
+  Definition evid1 (pp : option content) (fs : fsys) (p : path) : list fv :=
+    if accepted pp p then match fs_get fs p with Some c => [(p, c)] | None => [] end else [].
+  Definition pf1 (pp : option content) (fs : fsys) (p : path) : list V := if accepted pp p then perfile p (fs_get fs p) else [].
+  Definition evid (pp : option content) (fs : fsys) (ps : list path) : list fv := flat_map (evid1 pp fs) ps.
+  Definition pfout (pp : option content) (fs : fsys) (ps : list path) : list V := flat_map (pf1 pp fs) ps.
 
-  Lemma lint_file1_char fs st p : coherent (icache st) ->
-    let r := lint_file1 fs st p in
-    dry_rows (fst r) = dry_rows st ++ evid1 fs p /\ dry_aux (fst r) = dry_aux st ++ evid1 fs p
-    /\ st_ev (fst r) = st_ev st ++ evid1 fs p /\ snd r = pf1 fs p /\ coherent (icache (fst r)).
+  Lemma lint_file1_char fs st p : coherent st ->
+    let r := lint_file1 fs st p in let pp := ppats st in
+    dry_rows (fst r) = dry_rows st ++ evid1 pp fs p /\ dry_aux (fst r) = dry_aux st ++ evid1 pp fs p
+    /\ st_ev (fst r) = st_ev st ++ evid1 pp fs p /\ snd r = pf1 pp fs p /\ coherent (fst r) /\ ppats (fst r) = pp.
   Proof.
-    intros C. unfold lint_file1, evid1, pf1, accepted.
+    intros C. unfold lint_file1, evid1, pf1, accepted. cbn zeta.
     destruct (smem "_is_hardcoded_excluded" lint_file_guards && hard_excl p) eqn:E1; cbn [negb andb fst snd].
-    { rewrite !app_nil_r. repeat split; assumption. }
+    { rewrite !app_nil_r. repeat split; try reflexivity. exact C. }
     destruct (smem "is_ignored" lint_file_guards) eqn:G2; cbn [andb].
-    - pose proof (cached_ignored_ok (icache st) p C) as [Hf Hc].
-      destruct (cached_ignored ignored (icache st) p) as [ig ic]. cbn [fst snd] in Hf, Hc. subst ig.
-      destruct (ignored p); cbn [negb].
-      + cbn [fst snd set_icache dry_rows dry_aux st_ev icache]. rewrite !app_nil_r. repeat split; assumption.
-      + destruct (fs_get fs p); cbn [fst snd set_icache dry_rows dry_aux st_ev icache]; rewrite ?app_nil_r; repeat split; assumption.
-    - cbn [negb]. destruct (fs_get fs p); cbn [fst snd set_icache dry_rows dry_aux st_ev icache]; rewrite ?app_nil_r; repeat split; assumption.
+    - pose proof (cached_ignored_ok (ppats st) (icache st) p C) as [Hf Hc].
+      destruct (cached_ignored ignored (ppats st) (icache st) p) as [ig ic]. cbn [fst snd] in Hf, Hc. subst ig.
+      destruct (ignored (ppats st) p); cbn [negb].
+      + cbn [fst snd set_icache dry_rows dry_aux st_ev icache ppats]. rewrite !app_nil_r. repeat split; try reflexivity. exact Hc.
+      + destruct (fs_get fs p); cbn [fst snd set_icache dry_rows dry_aux st_ev icache ppats]; rewrite ?app_nil_r; repeat split; try reflexivity; exact Hc.
+    - cbn [negb]. destruct (fs_get fs p); cbn [fst snd set_icache dry_rows dry_aux st_ev icache ppats]; rewrite ?app_nil_r; repeat split; try reflexivity; exact C.
   Qed.
 
-  Lemma lint_each_char fs ps : forall st, coherent (icache st) ->
-    let r := lint_each fs st ps in
-    dry_rows (fst r) = dry_rows st ++ evid fs ps /\ dry_aux (fst r) = dry_aux st ++ evid fs ps
-    /\ st_ev (fst r) = st_ev st ++ evid fs ps /\ snd r = pfout fs ps /\ coherent (icache (fst r)).
+  Lemma lint_each_char fs ps : forall st, coherent st ->
+    let r := lint_each fs st ps in let pp := ppats st in
+    dry_rows (fst r) = dry_rows st ++ evid pp fs ps /\ dry_aux (fst r) = dry_aux st ++ evid pp fs ps
+    /\ st_ev (fst r) = st_ev st ++ evid pp fs ps /\ snd r = pfout pp fs ps /\ coherent (fst r) /\ ppats (fst r) = pp.
   Proof.
-    induction ps as [|p r IH]; intros st C; cbn [OrchHist.lint_each evid pfout flat_map].
-    - cbn [fst snd]. rewrite !app_nil_r. repeat split; assumption.
-    - pose proof (lint_file1_char fs st p C) as (H1 & H2 & H3 & H4 & H5).
-      destruct (lint_file1 fs st p) as [s1 o1]. cbn [fst snd] in H1, H2, H3, H4, H5.
-      pose proof (IH s1 H5) as (K1 & K2 & K3 & K4 & K5).
-      destruct (lint_each fs s1 r) as [s2 o2]. cbn [fst snd] in K1, K2, K3, K4, K5 |- *.
-      rewrite K1, K2, K3, K4, H1, H2, H3, H4, <- !app_assoc. repeat split; assumption.
+    induction ps as [|p r IH]; intros st C; cbn [OrchHist.lint_each evid pfout flat_map]; cbn zeta.
+    - cbn [fst snd]. rewrite !app_nil_r. repeat split; try reflexivity. exact C.
+    - pose proof (lint_file1_char fs st p C) as (H1 & H2 & H3 & H4 & H5 & H6).
+      destruct (lint_file1 fs st p) as [s1 o1]. cbn [fst snd] in H1, H2, H3, H4, H5, H6.
+      pose proof (IH s1 H5) as (K1 & K2 & K3 & K4 & K5 & K6). rewrite H6 in K1, K2, K3, K4, K6.
+      destruct (lint_each fs s1 r) as [s2 o2]. cbn [fst snd] in K1, K2, K3, K4, K5, K6 |- *.
+      rewrite K1, K2, K3, K4, H1, H2, H3, H4, <- !app_assoc. repeat split; try reflexivity; assumption.
   Qed.
 
-  Lemma evid_app fs a b : evid fs (a ++ b) = evid fs a ++ evid fs b.
+  Lemma evid_app pp fs a b : evid pp fs (a ++ b) = evid pp fs a ++ evid pp fs b.
   Proof. unfold evid. apply flat_map_app. Qed.
-  Lemma pfout_app fs a b : pfout fs (a ++ b) = pfout fs a ++ pfout fs b.
+  Lemma pfout_app pp fs a b : pfout pp fs (a ++ b) = pfout pp fs a ++ pfout pp fs b.
   Proof. unfold pfout. apply flat_map_app. Qed.
 
   (* ---------- an entry point, characterised ---------- *)
-  Definition after_finalize (q : oquirks) (rows consts st : list fv) (ic : list (path * bool)) : ostate :=
-    Build_ostate (if rows_kept q then rows else []) [] [] ic.
+  Definition after_finalize (q : oquirks) (rows : list fv) (pp : option content) (ic : list (path * bool)) : ostate :=
+    Build_ostate (if rows_kept q then rows else []) [] [] pp ic.
 
   Lemma finalize_char q st :
-    finalize q st = (after_finalize q (dry_rows st) (dry_aux st) (st_ev st) (icache st),
+    finalize q st = (after_finalize q (dry_rows st) (ppats st) (icache st),
                      Build_out [] (rep_blocks (dry_rows st) (dry_aux st)) (rep_consts (consts_view q (dry_aux st))) (rep_st (st_ev st))).
   Proof.
     unfold OrchHist.finalize, after_finalize, rows_kept. rewrite gen_dry_aux_reset, gen_st_clears.
     destruct (smem "_storage" (dry_resets q)); reflexivity.
   Qed.
 
-  Lemma run_entry_finalizing q entry fs st ps : finalizes entry = true -> coherent (icache st) ->
-    let r := run_entry q entry fs st ps in
-    snd r = Build_out (pfout fs ps) (rep_blocks (dry_rows st ++ evid fs ps) (dry_aux st ++ evid fs ps))
-                      (rep_consts (consts_view q (dry_aux st ++ evid fs ps))) (rep_st (st_ev st ++ evid fs ps))
-    /\ dry_rows (fst r) = (if rows_kept q then dry_rows st ++ evid fs ps else [])
-    /\ dry_aux (fst r) = [] /\ st_ev (fst r) = [] /\ coherent (icache (fst r)).
+  Lemma run_entry_finalizing q entry fs st ps : finalizes entry = true -> coherent st ->
+    let r := run_entry q entry fs st ps in let pp := ppats st in
+    snd r = Build_out (pfout pp fs ps) (rep_blocks (dry_rows st ++ evid pp fs ps) (dry_aux st ++ evid pp fs ps))
+                      (rep_consts (consts_view q (dry_aux st ++ evid pp fs ps))) (rep_st (st_ev st ++ evid pp fs ps))
+    /\ dry_rows (fst r) = (if rows_kept q then dry_rows st ++ evid pp fs ps else [])
+    /\ dry_aux (fst r) = [] /\ st_ev (fst r) = [] /\ coherent (fst r) /\ ppats (fst r) = pp.
   Proof.
-    intros F C. unfold OrchHist.run_entry. rewrite F.
-    pose proof (lint_each_char fs ps st C) as (H1 & H2 & H3 & H4 & H5).
-    destruct (lint_each fs st ps) as [s1 pf]. cbn [fst snd] in H1, H2, H3, H4, H5.
-    rewrite finalize_char. cbn [fst snd with_pf o_pf o_blocks o_consts o_st after_finalize dry_rows dry_aux st_ev icache].
+    intros F C. unfold OrchHist.run_entry. rewrite F. cbn zeta.
+    pose proof (lint_each_char fs ps st C) as (H1 & H2 & H3 & H4 & H5 & H6).
+    destruct (lint_each fs st ps) as [s1 pf]. cbn [fst snd] in H1, H2, H3, H4, H5, H6.
+    rewrite finalize_char. cbn [fst snd with_pf o_pf o_blocks o_consts o_st after_finalize dry_rows dry_aux st_ev icache ppats].
     rewrite H1, H2, H3, H4. unfold with_pf. cbn [o_pf o_blocks o_consts o_st]. rewrite app_nil_r.
-    repeat split; try reflexivity. exact H5.
+    repeat split; try reflexivity; try exact H6.
+    intros p b Hp. cbn [icache ppats] in *. apply (H5 p b Hp).
   Qed.
 
-  Lemma run_entry_plain q entry fs st ps : finalizes entry = false -> coherent (icache st) ->
-    let r := run_entry q entry fs st ps in
-    snd r = Build_out (pfout fs ps) [] [] []
-    /\ dry_rows (fst r) = dry_rows st ++ evid fs ps /\ dry_aux (fst r) = dry_aux st ++ evid fs ps
-    /\ st_ev (fst r) = st_ev st ++ evid fs ps /\ coherent (icache (fst r)).
+  Lemma run_entry_plain q entry fs st ps : finalizes entry = false -> coherent st ->
+    let r := run_entry q entry fs st ps in let pp := ppats st in
+    snd r = Build_out (pfout pp fs ps) [] [] []
+    /\ dry_rows (fst r) = dry_rows st ++ evid pp fs ps /\ dry_aux (fst r) = dry_aux st ++ evid pp fs ps
+    /\ st_ev (fst r) = st_ev st ++ evid pp fs ps /\ coherent (fst r) /\ ppats (fst r) = pp.
   Proof.
-    intros F C. unfold OrchHist.run_entry. rewrite F.
-    pose proof (lint_each_char fs ps st C) as (H1 & H2 & H3 & H4 & H5).
+    intros F C. unfold OrchHist.run_entry. rewrite F. cbn zeta.
+    pose proof (lint_each_char fs ps st C) as (H1 & H2 & H3 & H4 & H5 & H6).
     destruct (lint_each fs st ps) as [s1 pf]. cbn [fst snd] in *. rewrite H4. repeat split; assumption.
   Qed.
 
   (* ---------- the file system component ---------- *)
   Lemma step_fs q st fs o : snd (fst (step q (st, fs) o)) = fs_step fs o.
   Proof.
-    destruct o as [p|ps|d l|[p|d l]|p c|p|p c]; cbn [OrchHist.step fs_step].
+    destruct o as [p|ps|d l|[p|d l]|p c|p|p c|]; cbn [OrchHist.step fs_step].
     - destruct (run_single q "lint_file" fs st p); reflexivity.
     - destruct (run_entry q "lint_files" fs st ps); reflexivity.
     - destruct (run_entry q "lint_directory" fs st _); reflexivity.
     - destruct (fs_get fs p); [|reflexivity]. destruct (run_single q _ fs st p); reflexivity.
     - destruct (run_entry q api_dir_entry fs st _); reflexivity.
+    - reflexivity.
     - reflexivity.
     - reflexivity.
     - reflexivity.
